@@ -338,10 +338,6 @@ class SPICommandInterface(Elaboratable):
             # Once CS is low, we'll shift in our command.
             with m.State('RECEIVE_COMMAND'):
 
-                # If CS is de-asserted early; our transaction is being aborted.
-                with m.If(~spi.cs):
-                    m.next = 'IDLE'
-
                 # Continue shifting in data until we have a full command.
                 with m.If(bit_count < self.command_size):
                     with m.If(sample_edge):
@@ -359,10 +355,19 @@ class SPICommandInterface(Elaboratable):
                     ]
                     m.next = 'PROCESSING'
 
+                # If CS is de-asserted early; our transaction is being aborted.
+                # (Checked last, so it takes priority over moving on to PROCESSING.)
+                with m.If(~spi.cs):
+                    m.next = 'IDLE'
+
 
             # Give our controller a wait state to prepare any response they might want to...
             with m.State('PROCESSING'):
                 m.next = 'LATCH_OUTPUT'
+
+                # If CS is de-asserted early; our transaction is being aborted.
+                with m.If(~spi.cs):
+                    m.next = 'IDLE'
 
 
             # ... and then latch in the response to transmit.
@@ -370,13 +375,13 @@ class SPICommandInterface(Elaboratable):
                 m.d.sync += current_word.eq(self.word_to_send)
                 m.next = 'SHIFT_DATA'
 
-
-            # Finally, exchange data.
-            with m.State('SHIFT_DATA'):
-
                 # If CS is de-asserted early; our transaction is being aborted.
                 with m.If(~spi.cs):
                     m.next = 'IDLE'
+
+
+            # Finally, exchange data.
+            with m.State('SHIFT_DATA'):
 
                 m.d.sync += spi.sdo.eq(current_word[-1])
 
@@ -398,6 +403,12 @@ class SPICommandInterface(Elaboratable):
 
                     # Stay in the stall state until CS is de-asserted.
                     m.next = 'STALL'
+
+                # If CS is de-asserted, our transaction is over (or is being aborted early).
+                # (Checked last, so it takes priority over moving on to STALL; a word that
+                # completes in this very cycle is still passed on above.)
+                with m.If(~spi.cs):
+                    m.next = 'IDLE'
 
         return m
 
